@@ -1,0 +1,97 @@
+//go:build verif
+
+package skiplist
+
+// Verification accessor (build tag `verif` only, add-only file; nothing changes with the tag off).
+// VerifLanes dumps the pointer structure of the skip list so that an external checker can
+// compare it with a lanes model:
+//   - Nodes: the bottom lane (header.next[0] chain) in order; for every node its score and
+//     its level (len(node.next)).
+//   - Lanes[i] (0 <= i < Level): the chain header.next[i], next[i], ... written as indices into
+//     Nodes (-1 for a node that is not reachable on the bottom lane).
+//   - Back: the chain tail, tail.prev, ... written as indices into Nodes (-1 as above).
+//   - Level, Count: the bookkeeping fields.
+// Walks are bounded by Count+8 steps per lane so that a corrupted (cyclic) structure cannot
+// hang the checker; Truncated reports that a bound was hit.
+
+// VerifNode is one bottom-lane node.
+type VerifNode struct {
+	Score int64
+	Level int
+	Value interface{}
+}
+
+// VerifDump is the result of VerifLanes.
+type VerifDump struct {
+	Nodes     []VerifNode
+	Lanes     [][]int
+	Back      []int
+	Level     int
+	Count     int
+	Truncated bool
+}
+
+// VerifLanes returns the current lane structure.
+func (sl *SkipList) VerifLanes() *VerifDump {
+	d := &VerifDump{Level: sl.level, Count: sl.count}
+	bound := sl.count + 8
+	if bound < 8 {
+		bound = 8
+	}
+	idx := make(map[*skipListNode]int)
+	steps := 0
+	for e := sl.header.next[0]; e != nil; e = e.next[0] {
+		if steps >= bound {
+			d.Truncated = true
+			break
+		}
+		steps++
+		if _, dup := idx[e]; dup {
+			d.Truncated = true
+			break
+		}
+		idx[e] = len(d.Nodes)
+		d.Nodes = append(d.Nodes, VerifNode{Score: e.Value.Score, Level: len(e.next), Value: e.Value.Value})
+	}
+	at := func(n *skipListNode) int {
+		if i, ok := idx[n]; ok {
+			return i
+		}
+		return -1
+	}
+	lv := sl.level
+	if lv > maxLevel {
+		lv = maxLevel
+	}
+	for i := 0; i < lv; i++ {
+		lane := []int{}
+		steps = 0
+		for e := sl.header.next[i]; e != nil; {
+			if steps >= bound {
+				d.Truncated = true
+				break
+			}
+			steps++
+			lane = append(lane, at(e))
+			if i >= len(e.next) {
+				d.Truncated = true
+				break
+			}
+			e = e.next[i]
+		}
+		d.Lanes = append(d.Lanes, lane)
+	}
+	steps = 0
+	for e := sl.tail; e != nil; e = e.prev {
+		if steps >= bound {
+			d.Truncated = true
+			break
+		}
+		steps++
+		d.Back = append(d.Back, at(e))
+	}
+	return d
+}
+
+// VerifList exposes the underlying skip list of a Queue (read-only use by the checker).
+func (cache *Queue) VerifList() *SkipList { return cache.txList }
